@@ -75,7 +75,7 @@ THEOREMS = [
 #   4 = C17-F17b.patch alone (non-stream call numbering), 8 = C17-F17d.patch (run without done -> error),
 #   16 = C17-F17e.patch (api.Client returns the scanner's error).
 # One edit when the lead applies a fix (or VERIF_C17_VARIANT for a scratch worktree).
-VARIANT = 14  # fixed in /repo: F17c (499276761, bit 2), F17b (bit 4), F17d (bit 8)
+VARIANT = 30  # fixed in /repo: F17c (499276761, bit 2), F17b (bit 4), F17d (bit 8), F17e (2a881f3aa, bit 16)
 OVERLAY = {"server/zz_verif_c17_test.go": "server/zz_verif_c17_test.go"}
 
 
